@@ -593,14 +593,18 @@ func init() {
 		if tier == "quick" {
 			p.BudgetS = 480
 			p.Runs = []Run{{Name: "mutation-base-pairs-counter", Check: "C16", Kind: "mutreq", Cases: true, Params: map[string]interface{}{"type": "counter", "pairs": "base"}, Shards: 16},
+				{Name: "mutation-base-pairs-list", Check: "C16", Kind: "mutreq", Cases: true, Params: map[string]interface{}{"type": "list", "pairs": "base"}, Shards: 16},
+				{Name: "mutation-base-pairs-doc", Check: "C16", Kind: "mutreq", Cases: true, Params: map[string]interface{}{"type": "doc", "pairs": "base"}, Shards: 16},
+				{Name: "mutation-base-pairs-map", Check: "C16", Kind: "mutreq", Cases: true, Params: map[string]interface{}{"type": "map", "pairs": "base"}, Shards: 16},
 				schedRun("caller-gives-up-then-next-requests-b1", 1, giveUpScenario(), 0),
 				{Name: "client-patch-collection-messages", Check: "C16", Kind: "mutadmin", Cases: true, Params: map[string]interface{}{}, Shards: 16}}
 		} else {
 			p.BudgetS = 3300
 			p.Runs = []Run{
 				{Name: "mutation-all-pairs-counter", Check: "C16", Kind: "mutreq", Cases: true, Params: map[string]interface{}{"type": "counter", "pairs": "all"}, Shards: 16},
-				{Name: "mutation-base-pairs-list", Check: "C16", Kind: "mutreq", Cases: true, Params: map[string]interface{}{"type": "list", "pairs": "base"}, Shards: 16},
-				{Name: "mutation-base-pairs-doc", Check: "C16", Kind: "mutreq", Cases: true, Params: map[string]interface{}{"type": "doc", "pairs": "base"}, Shards: 16},
+				{Name: "mutation-all-pairs-list", Check: "C16", Kind: "mutreq", Cases: true, Params: map[string]interface{}{"type": "list", "pairs": "all"}, Shards: 16},
+				{Name: "mutation-all-pairs-doc", Check: "C16", Kind: "mutreq", Cases: true, Params: map[string]interface{}{"type": "doc", "pairs": "all"}, Shards: 16},
+				{Name: "mutation-all-pairs-map", Check: "C16", Kind: "mutreq", Cases: true, Params: map[string]interface{}{"type": "map", "pairs": "all"}, Shards: 16},
 				schedRun("caller-gives-up-then-next-requests-b2", 2, giveUpScenario(), 0),
 				{Name: "client-patch-collection-messages", Check: "C16", Kind: "mutadmin", Cases: true, Params: map[string]interface{}{}, Shards: 16},
 			}
